@@ -9,6 +9,23 @@ pub open spec fn crc_checked<'a>(z: ZipFileReader<'a>, crc: u32, ae2: bool, src:
         _ => false,
     }
 }
+// the CRC layer of an open entry: (declared CRC, AE-2 exemption, bytes hashed so far); None for the raw reader / no reader
+pub open spec fn zfr_check<'a>(z: ZipFileReader<'a>) -> Option<(u32, bool, Seq<u8>)> {
+    match z {
+        ZipFileReader::Stored(c) => Some((c.check, c.ae2_encrypted, c.hasher@)),
+        ZipFileReader::Deflated(c) => Some((c.check, c.ae2_encrypted, c.hasher@)),
+        ZipFileReader::Bzip2(c) => Some((c.check, c.ae2_encrypted, c.hasher@)),
+        ZipFileReader::Zstd(c) => Some((c.check, c.ae2_encrypted, c.hasher@)),
+        _ => None,
+    }
+}
+// one read through the CRC layer: same declared CRC and exemption, exactly the returned bytes are hashed, and end-of-data
+// (Ok(0) on a non-empty buffer) is only reported when the accumulated CRC matches (or the entry is AE-2)
+pub open spec fn crc_read_step(before: (u32, bool, Seq<u8>), after: (u32, bool, Seq<u8>), buf_len: int, out: Seq<u8>, r: io::Result<usize>) -> bool {
+    after.0 == before.0 && after.1 == before.1
+    && (r matches Ok(n) ==> n <= buf_len && after.2 == before.2 + out.subrange(0, n as int)
+        && (n == 0 && buf_len > 0 ==> before.1 || before.0 == crc32(before.2)))
+}
 pub open spec fn is_ae2(c: CryptoReader) -> bool { c matches CryptoReader::Aes { vendor_version: AesVendorVersion::Ae2, .. } }
 pub open spec fn decodable(m: CompressionMethod) -> bool { m is Stored || m is Deflated || m is Bzip2 || m is Zstd }
 // representation invariant of an open entry: until the decoder stack is built, the crypto reader is there
